@@ -546,6 +546,32 @@ def _to_dtype(e, dt):
     return e
 
 
+def _plain_z3(x):
+    """z3 term of a symbolic real without denominator (None otherwise)"""
+    if not isinstance(x, SR):
+        return None
+    q = x.v.canon() if x.v.den else x.v
+    if q.den:
+        return None
+    return S.poly_to_z3(q.n.reduce())
+
+
+def _log_monotone(args, outs):
+    """The log atoms are uninterpreted for the solver: state that log is strictly increasing on the arguments met
+    together (a<b <=> log a<log b, a==b <=> log a==log b) and that log a < a.  This is what makes np.unique / sorting of a
+    log-transformed grid decidable."""
+    za = [_plain_z3(a) for a in args]
+    zo = [_plain_z3(o) for o in outs]
+    for i in range(len(args)):
+        if za[i] is None or zo[i] is None:
+            continue
+        S.assume_z3(zo[i] < za[i])
+        for j in range(i + 1, len(args)):
+            if za[j] is None or zo[j] is None:
+                continue
+            S.assume_z3(z3.And((za[i] < za[j]) == (zo[i] < zo[j]), (za[i] == za[j]) == (zo[i] == zo[j])))
+
+
 def _np_scalar_class(name, real, pred):
     return _LeafMeta(name, (), {"_name": "np." + name, "_check": staticmethod(lambda obj: isinstance(obj, real) or pred(obj))})
 
@@ -611,7 +637,10 @@ class CardNumpy(shim.SymNumpy):
 
     def log(self, x, *a, **k):
         if isinstance(x, SymNd) or (isinstance(x, realnp.ndarray) and x.dtype == object):
-            return SymNd.make([FL(e.log().v, None, "np.float64") for e in x.flat], "float64")
+            args = list(x.flat)
+            outs = [FL(e.log().v, None, "np.float64") for e in args]
+            _log_monotone(args, outs)
+            return SymNd.make(outs, "float64")
         if isinstance(x, SR):
             return x.log()
         return realnp.log(x, *a, **k)
